@@ -273,8 +273,14 @@ def outside_entries(root, sub):
     for m, ents in C.all_manifests(root).items():
         d = os.path.dirname(m)
         for t in ents or []:
-            if t[0] in ('MANIFEST', 'TIMESTAMP') or len(t) < 2:
+            if t[0] == 'TIMESTAMP' or len(t) < 2:
                 continue
+            if t[0] == 'MANIFEST':
+                # MANIFEST entries on the chain above (or inside) the updated directory are update's to refresh; the others --
+                # a sibling's sub-Manifest -- are entries for paths outside it like any other
+                md = os.path.dirname(os.path.normpath(os.path.join(d, C.unescape(t[1]))))
+                if md == '' or sub == md or sub.startswith(md + '/') or md.startswith(sub + '/'):
+                    continue
             full = os.path.normpath(os.path.join(d, C.unescape(t[1]))) if t[0] != 'DIST' else '<dist>' + t[1]
             if t[0] == 'DIST' or not (full == sub or full.startswith(sub + '/')):
                 out.append((d, tuple(t)))
@@ -299,6 +305,12 @@ def subdir_case(rng):
         os.makedirs(os.path.join(root, 'sub-gone'))
         with open(os.path.join(root, 'sub-gone', 'file'), 'wb') as fh:
             fh.write(b'zz')
+        # by turns: the sibling's sub-Manifest has changed on disk since its MANIFEST entry was written (the entry is not on the
+        # chain above sub/, so a sub-directory update must leave it as it is -- refreshing it would bless the change)
+        stale_sibling = rng.random() < 0.5
+        if stale_sibling:
+            with open(os.path.join(root, 'sub.extra', 'Manifest'), 'a') as fh:
+                fh.write('DIST tampered-1.tar 1 SHA1 00\n')
         # edits inside sub only
         with open(os.path.join(root, 'sub', 'a'), 'wb') as fh:
             fh.write(b'changed')
@@ -325,8 +337,9 @@ def subdir_case(rng):
         if C.snapshot(root, skip_manifests=True) != before_files:
             out.append({'what': 'C10 sub-directory update touched non-Manifest files', 'key': 'subdir-touched', 'props': ['C10']})
         v = C.run_cli(['verify', root])
-        if v != 0:
-            out.append({'what': 'C03/C10 tree does not verify after a sub-directory update: %r' % (v,), 'key': 'subdir-verify', 'props': ['C03', 'C10']})
+        if (v != 0) != stale_sibling:
+            out.append({'what': 'C03/C10 after a sub-directory update (sibling sub-Manifest stale: %s) gemato verify says %r' % (stale_sibling, v),
+                        'key': 'subdir-verify' if not stale_sibling else 'subdir-blessed-sibling', 'props': ['C03', 'C10']})
     return out
 
 
@@ -698,6 +711,94 @@ def dup_hashsets_case(rng):
     return out, 5
 
 
+def symlink_case(rng):
+    """symbolic links in the tree: (a) a listed file that has become a dangling link -- the update refuses, or leaves no entry
+    for it; (b) a directory reachable through two paths that are not a loop (releases/latest -> 1.0): gemato follows links, so
+    the files need entries under both paths, after create and after an update"""
+    out = []
+    hashes = ['SHA1', 'SHA512']
+    with C.Scratch() as root:
+        C.make_tree(root, {'pkg/notes.txt': b'notes', 'pkg/a': b'a', 'top': b't'})
+        C.write_manifest(os.path.join(root, 'pkg', 'Manifest'), [])
+        C.write_manifest(os.path.join(root, 'Manifest'), [])
+        if run_update(root, hashes, False) == 0:
+            os.unlink(os.path.join(root, 'pkg', 'notes.txt'))
+            os.symlink('does-not-exist', os.path.join(root, 'pkg', 'notes.txt'))
+            if rng.random() < 0.5:
+                os.symlink('nowhere', os.path.join(root, 'pkg', 'never-listed'))
+            with open(os.path.join(root, 'pkg', 'a'), 'wb') as fh:
+                fh.write(b'a changed')
+            st = run_update(root, hashes, False)
+            if st == 0:
+                _post_update_checks(root, hashes, 'dangling-symlink', out)
+            elif not (isinstance(st, str) and st.startswith('GematoException:')):
+                out.append({'what': 'C18 update with a dangling symlink in place of a listed file: %r' % (st,),
+                            'key': 'update-status:dangling-symlink', 'props': ['C18']})
+    with C.Scratch() as root:
+        C.make_tree(root, {'releases/1.0/x': b'x', 'releases/1.0/sub/y': b'y', 'other/z': b'z'})
+        os.symlink('1.0', os.path.join(root, 'releases', 'latest'))
+        if rng.random() < 0.5:
+            C.write_manifest(os.path.join(root, 'releases', 'Manifest'), [])
+        C.write_manifest(os.path.join(root, 'Manifest'), [])
+        st = run_update(root, hashes, False)
+        if st != 0:
+            out.append({'what': 'C18 update of a tree with a directory symlink that is no loop: %r' % (st,),
+                        'key': 'update-status:two-paths', 'props': ['C18']})
+            return out, 2
+        _post_update_checks(root, hashes, 'two-paths', out)
+        with open(os.path.join(root, 'releases', '1.0', 'x'), 'wb') as fh:
+            fh.write(b'X')                       # same size
+        with open(os.path.join(root, 'releases', '1.0', 'new'), 'wb') as fh:
+            fh.write(b'new')
+        os.unlink(os.path.join(root, 'releases', '1.0', 'sub', 'y'))
+        st = run_update(root, hashes, False)
+        if st != 0:
+            out.append({'what': 'C18 second update of a tree with a directory symlink that is no loop: %r' % (st,),
+                        'key': 'update-status:two-paths', 'props': ['C18']})
+            return out, 3
+        _post_update_checks(root, hashes, 'two-paths', out)
+    return out, 4
+
+
+def suffix_named_dir_case(rng):
+    """directories whose names contain a compression suffix (pkg.gz/ next to pkg/, logs.xz.d/): un-compressing their
+    Manifests renames only the Manifest file, inside its own directory; a sub-directory update touches no sibling"""
+    import gzip, lzma, bz2
+    out = []
+    sfx, opener = rng.choice([('gz', gzip.open), ('xz', lzma.open), ('bz2', bz2.open)])
+    odd = rng.choice(['pkg.' + sfx, 'logs.%s.d' % sfx])
+    plain = odd.replace('.' + sfx, '')
+    with C.Scratch() as root:
+        C.make_tree(root, {odd + '/f': b'ff', plain + '/g': b'g', plain + '/h': b'hh'})
+        with opener(os.path.join(root, odd, 'Manifest.' + sfx), 'wt') as fh:
+            fh.write(C.entry_line('DATA', 'f', b'stale', ['SHA1']) + '\n')
+        C.write_manifest(os.path.join(root, plain, 'Manifest'), [C.entry_line('DATA', 'g', b'g', ['SHA1']), C.entry_line('DATA', 'h', b'hh', ['SHA1']),
+                                                                'IGNORE tmp', 'DIST d-1.tar 3 SHA1 00'])
+        lines = []
+        for rel in (odd + '/Manifest.' + sfx, plain + '/Manifest'):
+            with open(os.path.join(root, rel), 'rb') as fh:
+                lines.append(C.entry_line('MANIFEST', rel, fh.read(), ['SHA1']))
+        C.write_manifest(os.path.join(root, 'Manifest'), lines)
+        before = C.snapshot(root)
+        st = C.run_cli(['update', '--hashes', 'SHA1', '--compress-watermark', '1000000', os.path.join(root, odd)])
+        after = C.snapshot(root)
+        if st != 0:
+            out.append({'what': 'C18/C13 update of %s/ with a watermark: %r' % (odd, st), 'key': 'update-status:suffix-named-dir', 'props': ['C18', 'C13']})
+            return out, 1
+        changed = sorted(k for k in set(before) | set(after) if before.get(k) != after.get(k))
+        allowed = {'Manifest', odd + '/Manifest', odd + '/Manifest.' + sfx}
+        if set(changed) - allowed:
+            out.append({'what': 'C10 update of %s/ (un-compressing its Manifest) changed %s' % (odd, sorted(set(changed) - allowed)),
+                        'key': 'subdir-touched:suffix-named-dir', 'props': ['C10', 'C13']})
+        have = sorted(x for x in os.listdir(os.path.join(root, odd)) if x.startswith('Manifest'))
+        if have != ['Manifest']:
+            out.append({'what': 'C13 %s/ holds %s after un-compressing its Manifest' % (odd, have), 'key': 'wm-one-file:suffix-named-dir', 'props': ['C13']})
+        if C.run_cli(['verify', root]) != 0:
+            out.append({'what': 'C13/C10 tree does not verify after un-compressing the Manifest of %s/' % odd, 'key': 'wm-verify:suffix-named-dir',
+                        'props': ['C13', 'C10']})
+    return out, 2
+
+
 def profile_watermark_case(rng):
     """C13 through a profile that sets loader options: an explicit watermark (0 included) wins over the profile default"""
     out = []
@@ -765,7 +866,7 @@ def main():
             distinct.add('subdir%d' % i)
     if prop in ('C03', 'C10', 'C12', 'C18'):
         for i in range(6 if tier == 'quick' else 40):
-            for fn in (prefix_sibling_case, sibling_chain_case, dup_hashsets_case):
+            for fn in (prefix_sibling_case, sibling_chain_case, dup_hashsets_case, symlink_case, suffix_named_dir_case):
                 try:
                     v, k = fn(rng)
                 except BaseException as e:
@@ -777,6 +878,8 @@ def main():
         for i in range(24 if tier == 'quick' else 300):
             try:
                 v, k = profile_watermark_case(rng)
+                v2, k2 = suffix_named_dir_case(rng)
+                v, k = v + v2, k + k2
             except BaseException as e:
                 v, k = [{'what': 'harness error in profile_watermark_case: %s: %s' % (type(e).__name__, e), 'key': 'harness', 'props': [prop]}], 0
             viol.extend(v)
